@@ -206,6 +206,9 @@ impl Check for C10 {
 			if let Err(p) = catch(|| fast_rates(ctx)) {
 				ctx.fail(format!("panic: {} :: fast playback rates", p), "");
 			}
+			if let Err(p) = catch(|| sliced_seek(ctx)) {
+				ctx.fail(format!("panic: {} :: seek on a sliced stream", p), "");
+			}
 		} else if idx >= sc.len() as u64 + E2_CASES + STARVE_CASES + EOF_CASES {
 			pacer::set_mode(pacer::Mode::Pacer);
 			let w = idx - sc.len() as u64 - E2_CASES - STARVE_CASES - EOF_CASES;
@@ -1216,6 +1219,87 @@ fn mid_callback(looping: bool, ahead: u64, sliced: bool, ctx: &mut Ctx) {
 
 /// the playback position lands exactly on the end of the stream while the decoder thread is alive: the sound finishes, the
 /// thread ends, nothing spins
+/// a seek on a SLICED stream while its decoder is alive: the decoder counts frames from the start of the audio, the transport from
+/// the start of the slice. Whatever the slice, after the seek the frames of the slice follow from the target to the slice's end,
+/// nothing from outside the slice is ever heard, the sound stops, and a healthy decoder reports no error
+fn sliced_seek(ctx: &mut Ctx) {
+	const N: usize = 48;
+	for (a, b) in [(8usize, N), (8, 40), (1, 30), (20, N)] {
+		for target in [0usize, 3, 10] {
+			for lead in [6u64, 40] {
+				ctx.evals += 1;
+				let desc = format!("{}-frame scripted stream at {} Hz (frame i = (i+1)/64), slice {}..{}; two callbacks of 4 frames, seek_to(frame {} of the slice), callbacks to the end; the decoder is granted {} iterations per callback", N, SR, a, b, target, lead);
+				let mut m = rig::manager(SR, 4, rig::caps(2), MainTrackBuilder::new());
+				let first = pacer::count();
+				let (dec, stats) = ScriptedDecoder::new((0..N).map(|i| Frame::from_mono((i + 1) as f32 / 64.0)).collect(), SR, vec![2, 1, 3], 1);
+				let data = StreamingSoundData::from_decoder(dec).slice(Region { start: kira::sound::PlaybackPosition::Samples(a), end: kira::sound::EndPosition::Custom(kira::sound::PlaybackPosition::Samples(b)) });
+				let mut h = m.play(data).map_err(|_| ()).expect("play");
+				let mut buf = vec![0.0f32; 8];
+				let mut heard: Vec<f32> = vec![];
+				let mut hung = false;
+				let mut bad_cb = None;
+				for cb in 0..24 {
+					if cb == 2 {
+						h.seek_to(target as f64 / SR as f64);
+					}
+					let t0 = std::time::Instant::now();
+					let timed_out = std::cell::Cell::new(false);
+					pacer::step_or(first, lead, &|| {
+						timed_out.set(t0.elapsed() > std::time::Duration::from_millis(1500));
+						timed_out.get()
+					});
+					if timed_out.get() {
+						hung = true;
+						break;
+					}
+					let rep = rig::callback(&mut m, &mut buf, 4, 2);
+					if !rep.ok() && bad_cb.is_none() {
+						bad_cb = Some(format!("{:?}", rep));
+					}
+					heard.extend([buf[0], buf[2], buf[4], buf[6]]);
+				}
+				let idx: Vec<Option<usize>> = heard.iter().map(|v| if *v == 0.0 { None } else { Some((v * 64.0).round() as usize - 1) }).collect();
+				let seen: Vec<usize> = idx.iter().flatten().copied().collect();
+				let mut bad: Option<String> = bad_cb.map(|b| format!("the callback monitor reports {}", b));
+				if hung {
+					bad = Some("the decoder thread never finishes a decode-loop iteration".into());
+					stats.abort.store(true, Ordering::SeqCst);
+				}
+				if bad.is_none() {
+					if let Some(f) = seen.iter().find(|i| **i < a || **i >= b) {
+						bad = Some(format!("file frame {} is heard, which is outside the slice", f));
+					} else if let Some(e) = h.pop_error() {
+						bad = Some(format!("a healthy decoder reports an error: {:?} (decode calls {})", e, stats.decode_calls.load(Ordering::SeqCst)));
+					} else if h.state() != PlaybackState::Stopped {
+						bad = Some(format!("the sound is {:?} long after the slice must have ended", h.state()));
+					} else {
+						// from the target on: consecutive frames of the file up to the end of the slice
+						let t = a + target;
+						match seen.iter().rposition(|i| *i == t) {
+							None => bad = Some(format!("the seek target (file frame {}) is never heard", t)),
+							Some(p) => {
+								let tail = &seen[p..];
+								if tail.iter().enumerate().any(|(k, i)| *i != t + k) || tail.len() != b - t {
+									bad = Some(format!("from the seek target on the stream does not play file frames {}..{} in order: {:?}", t, b, tail));
+								}
+							}
+						}
+					}
+				}
+				if let Some(bd) = bad {
+					ctx.fail("a seek on a sliced stream: foreign frames, a spurious decoder error, or no end :: seek on a sliced stream", format!("{}; {}; heard file frames {:?}", desc, bd, seen));
+				}
+				ctx.nontrivial_extra += 1;
+				ctx.state(hash64(&("sliced seek", a, b, target, lead)));
+				h.stop(tw(0.0, SR));
+				rig::callback(&mut m, &mut buf, 1, 2);
+				drop(m);
+				crate::probes::reap_decoder(first, &stats);
+			}
+		}
+	}
+}
+
 fn at_the_end(ctx: &mut Ctx) {
 	for which in 0..4 {
 		for n in [12usize, 1, 20000] {
